@@ -14,7 +14,7 @@ PROPS_V = "theories/Props/C08.v"
 THEOREMS = [
     "C08b_enum_eq_sound", "C08b_enum_neq_sound", "C08b_enum_neq_undeclared_sound", "C08b_enum_unserved_op_all_zones",
     "C08b_enum_rows_per_zone_wrap_refuted", "C08b_enum_build_ok", "C08b_enum_sound_all_operators",
-    "C08b_temporal_sound", "C08b_temporal_eq_sound_any_magnitude", "C08b_temporal_neq_all_zones",
+    "C08b_temporal_sound", "C08b_temporal_index_contains_every_instant", "C08b_temporal_eq_sound_any_magnitude", "C08b_temporal_neq_all_zones",
     "C08b_temporal_u32_wrap_refuted", "C08b_temporal_float_literal_refuted", "C08b_temporal_outside_known",
     "C08b_xor_key_agree", "C08b_xor_zone_sound", "C08b_xor_field_sound", "C08b_xor_non_eq_all_zones",
     "C08b_xor_presence_non_eq_all_zones", "C08b_xor_sound_all_operators", "C08b_xor_failed_construction_loses_zone",
@@ -22,7 +22,11 @@ THEOREMS = [
 RULE = ("per structure: a flush of 1..12 zones with generated per-zone value lists (enum: all variant subsets, duplicates, "
         "undeclared/missing values, later zones longer than the first; temporal: values on/around hour and day boundaries, "
         "negative, beyond 2^32, numeric strings and skipped kinds, fixed timestamp column and payload datetime field; xor: "
-        "ints, strings, floats, booleans, nulls, missing keys) x one probe (all six operators; literal present/absent/"
+        "ints, strings, floats, booleans, nulls, missing keys; SIZE FAMILIES crossing the thresholds of the structures: temporal zones of "
+        "65..300 distinct instants routinely and 1000..8001 a few per run (counts around multiples of 64 and powers of two, "
+        "dense / sparse / runs, duplicates, = probes on every stored instant or on the rows around every fence plus absent "
+        "instants, every stored instant also checked against the zone's own reloaded index), 65..4097 zones per segment, "
+        "30..400-day ranges; enum zones of 63..8191 rows around byte/word edges and 2^16(+1) rows; xor zones of 1..5000 distinct values) x one probe (all six operators; literal present/absent/"
         "off-by-one/boundary, ISO string, numeric string, float, negative, > u32, > i64::MAX, undeclared variant, "
         "cross-kind literal); plus FxHasher inputs of every tail length.  A case is non-trivial when at least one zone "
         "holds a matching row; distinct by (structure, operator, literal kind, zones required, zones returned)")
@@ -384,6 +388,164 @@ def gen_hash(rng, out, n):
         out.append({"kind": "hash", "line": f"zidx_hash {hx(s)}", "st": "hash", "s": s, "show": f"stable_hash64({s!r})"})
 
 
+# ------------------------------------------------------------------ size families
+# Every structure of this part has size thresholds the small generators above never reach:
+#   ZoneTemporalIndex: 64 fences over the sorted distinct instants (a zone with > 64 instants has more than one row
+#     per fence), keys as offsets from the minimum;
+#   calendar: one hour bucket per hour and one day bucket per day of the zone's range, RoaringBitmap per bucket
+#     (array container up to 4096 zone ids, bitmap container above);
+#   enum bitmaps: packed bytes (8 rows), machine words (64 rows), rows_per_zone as u16;
+#   BinaryFuse8: segment length / segment count tables indexed by the number of keys (tiny sets are special).
+# Each family below crosses one of them.  Big zones are written in ascending order: the model's sort-dedup is an
+# insertion that is linear on ascending input, so the model stays cheap.
+
+FENCES = 64
+
+
+def sized_instants(rng, n, shape, base):
+    """n DISTINCT instants (ascending) of the given shape."""
+    out, t = [], base
+    for i in range(n):
+        out.append(t)
+        if shape == "dense":
+            t += 1
+        elif shape == "sparse":
+            t += rng.range(1, 600)
+        else:   # runs: dense stretches separated by jumps
+            t += 1 if rng.below(8) else rng.range(2, 4000)
+    return out
+
+
+def fence_rows(n):
+    """row indexes around every fence, for both the fractional placement (build_fences: floor(k*n/64)) and the
+    integer window width (n // 64) a reader of the fences is tempted to use"""
+    idx = set([0, 1, n - 2, n - 1])
+    if n > FENCES:
+        w = n // FENCES
+        for k in range(FENCES + 2):
+            for b in (k * n // FENCES, k * w, (k + 1) * w - 1):
+                for d in (-1, 0, 1):
+                    if 0 <= b + d < n:
+                        idx.add(b + d)
+    return sorted(idx)
+
+
+def gen_temporal_sized(rng, out, tier):
+    q = tier == "quick"
+    routine = [65, 66, 100, 127, 128, 129, 191, 192, 193, 200, 255, 256, 257, 299, 300]
+    sizes = routine + [rng.range(65, 300) for _ in range(25 if q else 400)]
+    big_all = [1000, 1023, 1024, 1025, 2047, 2049, 4095, 4097, 5000, 7999, 8000, 8001]
+    big = [rng.choice(big_all) for _ in range(4)] if q else big_all * 5
+    for n in sizes + big:
+        shape = rng.choice(["dense", "sparse", "runs"])
+        r = rng.below(10)
+        base = rng.range(1600000000, 1800000000) if r < 6 else rng.range(0, 100000) if r < 8 else -rng.range(1, 200000) \
+            if n <= 300 else rng.range(1600000000, 1800000000)
+        if n > 300 and shape != "dense":
+            shape = "runs" if rng.below(2) else "sparse"
+        col = "ts" if base > 0 and rng.chance(1, 3) else "f"
+        inst = sized_instants(rng, n, shape, base)
+        rows = []
+        for t in inst:                       # duplicates stay adjacent (ascending order kept)
+            rows += [t] * (2 if rng.chance(1, 5) else 1)
+        if n <= 300 and rng.chance(1, 2):    # small enough for the quadratic insertion: any order
+            rows = sorted(rows, key=lambda _t: rng.next())
+        zones = [(0, [("i", t) for t in rows])]
+        if rng.chance(1, 2):                 # a second, small zone inside the same range
+            k = rng.range(1, 5)
+            zones.append((1, [("i", rng.choice(inst) + rng.choice([0, 0, 1])) for _ in range(k)]))
+        stored = set(inst)
+        if n <= 300:
+            probes = list(inst)
+        else:
+            probes = [inst[i] for i in fence_rows(n)] + [rng.choice(inst) for _ in range(40)]
+        absent = [t + d for t in rng_sample(rng, inst, 30) for d in (-1, 1) if t + d not in stored]
+        absent += [inst[0] - 1, inst[0] - 3600, inst[-1] + 1, inst[-1] + 86400]
+        lits = probes + absent
+        add_temporal_multi(out, col, zones, lits, kind=f"temp_sized_{'le300' if n <= 300 else 'big'}_{shape}")
+    # many zones: Roaring containers per bucket, slab directory of the per-zone indexes
+    for nz in ([65, 130, 257] if q else [65, 130, 257, 300, 1000, 4097]):
+        base = rng.range(1600000000, 1800000000)
+        zones = [(z, [("i", base + 7 * z + j) for j in range(rng.range(1, 2))]) for z in range(nz)]
+        lits = [base + 7 * z for z in (0, 1, nz // 2, nz - 2, nz - 1)] + [base - 1, base + 7 * nz + 5]
+        add_temporal_multi(out, "f", zones, lits, kind="temp_many_zones")
+    # wide ranges: many hour / day buckets for one zone
+    for days in ([30, 90] if q else [30, 90, 200, 400]):     # the model's bucket map is a sorted list: quadratic in the bucket count
+        base = rng.range(1500000000, 1600000000)
+        zones = [(0, [("i", base), ("i", base + days * 86400 + 3599)]), (1, [("i", base + 86400 * (days // 2))])]
+        lits = [base, base + days * 86400 + 3599, base + 86400 * (days // 2), base + 5]
+        add_temporal_multi(out, "f", zones, lits, kind="temp_wide_range")
+
+
+def rng_sample(rng, xs, k):
+    return [rng.choice(xs) for _ in range(min(k, len(xs)))]
+
+
+def add_temporal_multi(out, col, zones, lits, kind):
+    zs = ";".join(f"{z}:" + ",".join(cell_tok(c) for c in cells) for z, cells in zones)
+    line = f"zidx_temp {col} {zs} eq " + ",".join(f"i{v}" for v in lits)
+    zv = [[z, [c[1] for c in cells]] for z, cells in zones]
+    nrows = sum(len(v) for _, v in zv)
+    out.append({"kind": kind, "line": line, "st": "tempm", "zones": zv, "op": "eq", "lits": list(lits),
+                "show": f"temporal {col}: {len(zv)} zones, {nrows} rows (first zone {len(set(zv[0][1]))} distinct instants "
+                        f"{zv[0][1][0]}..), = probes on {len(lits)} instants"})
+
+
+def gen_enum_sized(rng, out, tier):
+    q = tier == "quick"
+    sizes = [63, 64, 65, 127, 128, 129, 255, 256, 257, 1000] + ([] if q else [511, 513, 2048, 4097, 8191])
+    for first in sizes:
+        vs = ["a", "b", "c"][:rng.range(2, 3)]
+        nz = rng.range(1, 3)
+        zones = []
+        for z in range(nz):
+            ln = first if z == 0 or rng.chance(1, 2) else rng.range(1, first)
+            mode = rng.below(3)
+            if mode == 0:      # one variant only, the other bitsets stay empty
+                vals = [vs[0]] * ln
+            elif mode == 1:    # a single row of the other variant, at a word / byte edge
+                vals = [vs[0]] * ln
+                vals[rng.choice([0, ln - 1, min(ln - 1, 63), min(ln - 1, 64), min(ln - 1, 7), min(ln - 1, 8)])] = vs[1]
+            else:
+                vals = [rng.choice(vs) for _ in range(ln)]
+            zones.append((z, vals))
+        for op, lit in (("eq", vs[1]), ("neq", vs[0])):
+            add_enum(out, vs, zones, op, ("s", lit), kind=f"enum_sized_{op}")
+    # many zones
+    for nz in ([70, 300] if q else [70, 300, 1000, 4097]):
+        vs = ["a", "b"]
+        zones = [(z, [rng.choice(vs) for _ in range(2)]) for z in range(nz)]
+        add_enum(out, vs, zones, "eq", ("s", "b"), kind="enum_many_zones")
+    if not q:                  # rows_per_zone as u16: 2^16 rows wrap to 0, 2^16 + 1 to 1 (known class; the builder panics)
+        for first in (65536, 65537):
+            add_enum(out, ["a", "b"], [(0, ["a"] * first)], "eq", ("s", "a"), kind="enum_u16_rows")
+            out[-1]["show"] = f"enum: one zone of {first} rows (rows_per_zone as u16)"
+
+
+def gen_xor_sized(rng, out, tier):
+    q = tier == "quick"
+    sizes = [1, 2, 3, 4, 5, 8, 16, 32, 33, 64, 65, 100, 256, 1000] + ([] if q else [2, 3, 7, 500, 2000, 5000])
+    for n in sizes:
+        kind = rng.choice(["i", "i", "s"])
+        base = rng.range(-1000, 10 ** 6)
+        vals = [base + 3 * i for i in range(n)]
+        cells = [("i", v) if kind == "i" else ("s", f"k{v}") for v in vals]
+        cells = cells + [rng.choice(cells) for _ in range(rng.range(0, 3))]     # duplicates
+        zones = [(0, cells)]
+        if rng.chance(1, 2):
+            zones.append((1, [cells[0], ("i", base - 1) if kind == "i" else ("s", "other")]))
+        probes = (cells[0], cells[n - 1], ("i", base + 1) if kind == "i" else ("s", "absent"))
+        if n >= 1000 and q:
+            probes = probes[1:2]      # the model's key dedup is quadratic: one probe of the big set in the quick tier
+        for lit in probes:
+            add_xor(out, zones, "eq", lit, kind="xor_sized")
+            out[-1]["show"] = f"xor: zone 0 with {n} distinct values, probe v eq {lit!r}"
+    for nz in ([70, 300] if q else [70, 300, 1000, 4097]):
+        zones = [(z, [("i", z), ("i", z + 1)]) for z in range(nz)]
+        add_xor(out, zones, "eq", ("i", nz // 2), kind="xor_many_zones")
+        out[-1]["show"] = f"xor: {nz} zones of 2 values, probe v eq {nz // 2}"
+
+
 def cases(rng, tier):
     out = []
     q = tier == "quick"
@@ -391,6 +553,9 @@ def cases(rng, tier):
     gen_enum(rng.fork("enum"), out, 1500 if q else 50000)
     gen_temporal(rng.fork("temp"), out, 2500 if q else 90000)
     gen_xor(rng.fork("xor"), out, 1500 if q else 50000)
+    gen_temporal_sized(rng.fork("temp_sized"), out, tier)
+    gen_enum_sized(rng.fork("enum_sized"), out, tier)
+    gen_xor_sized(rng.fork("xor_sized"), out, tier)
     return out
 
 
@@ -417,6 +582,10 @@ def zset(s):
 
 
 def same(c, impl, model):
+    if c.get("st") in ("temp", "tempm"):
+        # own=<n> (stored instants the zone's own reloaded index does not contain) is printed by the Rust probe only;
+        # the oracle judges it
+        return re.sub(r" own=\d+$", "", impl or "") == model
     if c.get("st") != "xor":
         return impl == model
     if impl == model:
@@ -537,6 +706,26 @@ def oracle(c, impl):
         return None if impl == exp else f"stable_hash64({c['s']!r}) = {impl}, reference FxHasher gives {exp}"
     if impl in ("PANIC", "ABORT"):
         return f"the builder/pruner {impl}ed on {c.get('show')}"
+    if st in ("temp", "tempm"):
+        f = fields(impl)
+        if f.get("own") not in (None, "0"):
+            return (f"{f.get('own')} stored instants are not found by contains_ts of their own zone's index "
+                    f"(built by the real builder, saved, reloaded): {c.get('show')}")
+    if st == "tempm":
+        res = (f.get("res") or "").split("|")
+        if len(res) != len(c["lits"]):
+            return f"{len(res)} answers for {len(c['lits'])} probes: {c.get('show')}"
+        last = {}
+        for z, vals in c["zones"]:
+            last[z] = set(vals)
+        for v, r in zip(c["lits"], res):
+            req = set(z for z, vals in last.items() if v in vals)
+            zz = zset(r)
+            sel = set() if zz is None else zz
+            if req - sel:
+                return (f"= {v}: zones {sorted(req - sel)} hold that instant but are not candidates (returned {sorted(sel)}): "
+                        f"{c.get('show')}")
+        return None
     if st == "xor":
         f = fields(impl)
         if f.get("own") != "1":
@@ -598,6 +787,8 @@ def nontrivial_key(c, impl):
         return ("hash", len(c["s"].encode()) % 8, impl)
     if impl in (None, "PANIC", "ABORT"):
         return None
+    if st == "tempm":
+        return (c["kind"], len(c["zones"]), len(set(c["zones"][0][1])), c["zones"][0][1][0])
     req = required_zones(c)
     if not req:
         return None
